@@ -1,11 +1,14 @@
 import MetadorModel.Py.DrvLib
 import MetadorModel.Model.Record
+import MetadorModel.Model.RecordKw
 import MetadorModel.Model.UBlock
 /-!
 Driver for the record model (C02, C03). Names travel hex-encoded.
 
 Operations (one per line):
 * `open <p|m> <r|r+|a|w|w-|x> n <name>`  /  `open <p|m> <mode> l <file>*`
+* `openk <p|m> <mode> <manifest_file: hex name|-> <allow_baseless: 0|1> n <name>`  /  `openk … l <file>*`
+  (the constructor with its optional keyword arguments), `commitk` (`commit_patch(manifest_exts=…)`)
 * `write <k>`, `read`, `create`, `commit`, `discard`, `close <0|1>`, `merge <name>`, `delete <name>`
 * `find <name> <file>*` (find_files on a listing), `list <file>*` (list_records), `valid <name>`
 * `ubtext <hex of the whole file|->` — the framing part of `IH5UserBlock.load` (`UBlock.loadText`):
@@ -112,6 +115,16 @@ def permBy : Nat → List Name → Nat → List Name
 def parseCls : String → Option Bool
   | "p" => some false | "m" => some true | _ => none
 
+def applyK (s : DS) (op : OpK) : DS × String :=
+  let r := stepK s.s op
+  ({ s with s := r.st }, showRes s.s r)
+
+def parseKw (mf bl : String) : Option OpenKw :=
+  match (if mf == "-" then some none else (unhexName mf).map some), bl with
+  | some mf, "0" => some { mfile := mf, baseless := false }
+  | some mf, "1" => some { mfile := mf, baseless := true }
+  | _, _ => none
+
 def step' (s : DS) : List String → DS × String
   | ["openperm", c, m, seed] =>
     match parseCls c, parseMode m, seed.toNat? with
@@ -136,6 +149,15 @@ def step' (s : DS) : List String → DS × String
       if c == "p" then apply s (.openRec false (.list fs) m)
       else if c == "m" then apply s (.openRec true (.list fs) m) else (s, "bad-op")
     | _, _ => (s, "bad-op")
+  | "openk" :: c :: m :: mf :: bl :: "n" :: [n] =>
+    match parseCls c, parseMode m, parseKw mf bl, unhexName n with
+    | some c, some m, some kw, some n => applyK s (.openKw c (.name n) m kw)
+    | _, _, _, _ => (s, "bad-op")
+  | "openk" :: c :: m :: mf :: bl :: "l" :: fs =>
+    match parseCls c, parseMode m, parseKw mf bl, unhexNames fs with
+    | some c, some m, some kw, some fs => applyK s (.openKw c (.list fs) m kw)
+    | _, _, _, _ => (s, "bad-op")
+  | ["commitk"] => applyK s .commitExts
   | ["write", k] =>
     match k.toNat? with
     | some k => apply s (.write k)
